@@ -344,7 +344,9 @@ def gen_case(rng, ep=None, bias=None):
         cfg = base_cfg(rng, rng.choice(["grid", "cvt", "sliding"]))
         cfg["emitter"] = rng.choice(["gaussian", "isoline", "es", "es", "gae", "gae", "goe"])
         cfg["spy"] = rng.choice([0, 1])
-        cfg["es"] = rng.choice(["cma_es", "sep_cma_es", "openai_es"])
+        cfg["es"] = rng.choice(["cma_es", "sep_cma_es", "openai_es"] + (["pycma_es"] * 2 if HAVE_PYCMA else []))
+        # one-stage rankers hand the caller's own objective / add-feedback array to the evolution strategy as ranking values
+        cfg["ranker"] = rng.choice(["2imp", "imp", "obj", "2obj", "rd", "2rd"])
         cfg["grad_opt"] = rng.choice(["adam", "gradient_ascent"])
         if cfg["state"] == "empty":
             cfg["state"] = "some"
@@ -362,7 +364,8 @@ def gen_case(rng, ep=None, bias=None):
         cfg["mode"] = rng.choice(["batch", "single"]) if cfg["kind"] != "proximity" else "batch"
         cfg["result"] = rng.choice([0, 1])
         cfg["emitters"] = rng.choice([["gaussian"], ["gaussian", "es"], ["es", "isoline"]])
-        cfg["ranker"] = "obj" if cfg["kind"] == "proximity" else "2imp"
+        cfg["ranker"] = rng.choice(["obj", "2obj", "imp", "nov"]) if cfg["kind"] == "proximity" else rng.choice(["2imp", "2imp", "imp", "obj", "2obj"])
+        cfg["es"] = rng.choice(["cma_es", "sep_cma_es"] + (["pycma_es"] * 2 if HAVE_PYCMA else []))
         cfg["normalize"] = rng.choice([0, 1, 1])
         if cfg["state"] == "empty":
             cfg["state"] = "some"
@@ -399,6 +402,12 @@ def findings_of(case, driver):
         kinds.setdefault(classify(case, ctx.ep, f), []).append(("oracle", f))
     return ctx, obs, pred, kinds, exc
 
+
+try:
+    import cma as _cma  # noqa: F401
+    HAVE_PYCMA = True
+except Exception:  # noqa
+    HAVE_PYCMA = False
 
 SIMPLER = {  # per config key: values in order of preference (simplest first); the shrinker only moves towards the front
     "state": ["empty", "some", "dense", "full"], "n": [1, 2, 4], "extras": [0, 1], "dtype": ["float64", "float32"], "mae": [0, 1],
